@@ -632,6 +632,32 @@ def line_paint_calls(b):
     return out
 
 
+def rule_painted_is_measured(ctx, crate, rule="R-PAINTED-IS-MEASURED"):
+    """"Lines wider than the terminal are accounted for as the number of rows they wrap to": the rows are computed from the
+    stored line (`wrapped_height`, `console_width`, the zombie `visual_line_count`), so what is *written* for a line has to be that
+    very line. A paint call whose text went through a string transformation (`trim_end_matches`, a slice, `replace`, ..) occupies
+    other rows than the accounting assumes: a padded line whose trailing blanks cross a row boundary is painted in one row and
+    counted as two, and every redraw erases a row of the text above the region (seed C19l)."""
+    cfg = crate.config
+    info = emitter_commit_info(ctx, crate, rule)
+    if not info:
+        return
+    b, p, commits, acc = info
+    paints = line_paint_calls(b)
+    ctx.floor(rule, len(paints), 1, cfg, "per-line paint calls")
+    for k, c in enumerate(paints):
+        sl = b.slice_args(c, [1], stop_at_calls=(r"std::convert::AsRef::as_ref", r"<draw_target::LineType as std::convert::AsRef<str>>::as_ref"))
+        other = sorted({K.meth(x.path) for x in sl.calls if not x.matches(
+            r"std::convert::AsRef::as_ref", r"<draw_target::LineType as std::convert::AsRef<str>>::as_ref", r"std::ops::Deref::deref", r"<std::string::String as std::ops::Deref>::deref",
+            r"std::string::String::as_str", r"std::borrow::Borrow::borrow", r"std::iter::Iterator::next", r"std::iter::Iterator::enumerate",
+            r".*IntoIterator.*::into_iter", r"core::slice::<impl \[T\]>::iter", r"std::ops::Index::index", r"<std::vec::Vec<T, A> as std::ops::Index<I>>::index",
+            r"std::iter::Peekable::<I>::\w+", r"std::iter::Iterator::peekable", r"<std::vec::Vec<T, A> as std::ops::Deref>::deref")})
+        ctx.check(not other, rule, "paint-writes-the-line#%d" % k, b.name, c.loc(),
+                  "the text written for a line is the stored line itself (the one whose rows are counted)",
+                  "the text written for a line went through %s: it is not the string whose wrapped rows are counted - the line occupies other rows than the erase "
+                  "count assumes (a padded line with trailing blanks across a row boundary is painted in 1 row and counted as 2)" % other, cfg)
+
+
 def rule_text_not_counted(ctx, crate, rule="R-TEXT-NOT-COUNTED"):
     cfg = crate.config
     info = emitter_commit_info(ctx, crate, rule)
